@@ -498,6 +498,18 @@ pub fn run_line(line: &str, out: &mut String) {
         if !wk.is_empty() {
             line.push_str(&format!(" w{}", wk.join(",")));
         }
+        // C19 read literally, independent of the specification: the counts equal the harness's own
+        // inventory of live handles (it holds every clone, subscriber and weak reference itself)
+        if name == "counts" {
+            if let Some(nums) = text.strip_prefix('c') {
+                let n: Vec<usize> = nums.split('/').map(|x| x.parse().unwrap_or(usize::MAX)).collect();
+                let live_subs = subs.iter().filter(|s| s.sub.is_some()).count();
+                let n_owners = if unique.is_some() { 1 } else { owners.len() };
+                if n.len() != 4 || n[0] != n_owners || n[1] != live_subs || n[2] != n_owners + live_subs || n[3] != weaks.len() {
+                    line.push_str(" ok:inventory=0");
+                }
+            }
+        }
         // ---- oracles ----
         match &expect {
             None => line.push_str(" ok:spec=0"),
